@@ -324,3 +324,6 @@ w("C12", "index name hand-quoted again", "pandera/io/pandas_io.py",
   "            name=repr(properties[\"name\"]),", "            name=(\"None\" if properties[\"name\"] is None else f\"\\\"{properties['name']}\\\"\"),")
 w("C08", "polars container fills defaults for absent columns again", BL + "container.py",
   "            if not col_schema.regex and col_schema.name not in lf_columns:\n                continue\n            backend = col_schema.get_backend(check_obj)", "            backend = col_schema.get_backend(check_obj)")
+w("C13", "index_strategy loses its fallback filter", "pandera/strategies/pandas_strategies.py",
+  "            strategy = strategy.filter(\n                # pylint: disable=cell-var-from-loop\n                lambda index, check=check: check(\n                    index.to_series().reset_index(drop=True)\n                ).check_passed\n            )\n",
+  "            pass\n")
